@@ -173,6 +173,11 @@ func (h *Sources) Walk(pos int) {
 		return
 	}
 
+	// Not moving leaves the line as it is.
+	if pos == 0 {
+		return
+	}
+
 	// Can't go back further than the first line.
 	if h.hpos == history.Len() && pos == 1 {
 		return
